@@ -53,7 +53,9 @@ pub fn scenarios(tier: &str) -> Vec<Scenario> {
         m_reorg(3, RTarget::Back(W + 1)),
     ];
     // without restarts: one step deeper, so one reorg depth less (W-1 stays in the scenario with restarts)
-    let edge_no_restart: Vec<Macro> = edge.iter().filter(|m| m.kind != Kind::Dev(2) && m.name != format!("R-{}", W - 1)).cloned().collect();
+    let edge_no_restart: Vec<Macro> = edge.iter().filter(|m| m.kind != Kind::Dev(2) && m.name != format!("R-{}", W - 1) && !m.name.contains("deploy X")).cloned().collect();
+    // the inscription id that is deployed again at another address after a reorg: a small scenario of its own
+    let redeploy: Vec<Macro> = edge.iter().filter(|m| m.name.contains("deploy X") || ["M1", "C", "K", "R-1"].contains(&m.name.as_str())).cloned().collect();
     // with restarts (a real close / open each): without the two re-deployment blocks
     let edge: Vec<Macro> = edge.into_iter().filter(|m| !m.name.contains("deploy X")).collect();
     vec![
@@ -64,6 +66,16 @@ pub fn scenarios(tier: &str) -> Vec<Scenario> {
             alphabet: edge,
             bounds: Bounds { depth: if thorough { 4 } else { 3 }, dev: vec![1, 1, 1, 1], dev_total: if thorough { 4 } else { 3 } },
             weight: 2.0,
+            network: "regtest".into(),
+            traces: true,
+        },
+        Scenario {
+            name: "inscription-id-redeployed-after-reorg".into(),
+            opts: Opts::new("C03", "edge"),
+            starts: vec![("S deployed in block 1, nothing committed".into(), base.clone())],
+            alphabet: redeploy,
+            bounds: Bounds { depth: if thorough { 4 } else { 3 }, dev: vec![1, 1, 0, 1], dev_total: 3 },
+            weight: 0.5,
             network: "regtest".into(),
             traces: true,
         },
